@@ -18,6 +18,8 @@ from ..report import Result
 VC2 = "bitstream.vc2"
 READ_PRIMS = {"bool", "nbits", "uint_lit", "uint", "sint", "bitarray", "bytes", "byte_align", "bounded_block_begin", "bounded_block_end"}
 BOOKKEEPING = {"computed_value", "declare_list", "set_context_type"}
+# builtins / stdlib helpers that read nothing from the stream and only build a value from their arguments
+PURE_BUILTINS = {"dict", "list", "tuple", "len", "max", "min", "copy", "deepcopy", "copy.copy", "copy.deepcopy"}
 PURE_GEOMETRY = {"slice_top", "slice_bottom", "slice_left", "slice_right"}
 
 
@@ -70,6 +72,7 @@ def check(repo, tier="quick"):
     res.rule("C08.e", "the description program and the reader keep no state between streams and pass no same-named coordinates to the wrong parameters")
     res.rule("C08.d", "bounded blocks: BitstreamReader.read_bit consumes exactly the first n bits of an n-bit block and then yields the literal 1 without consuming, as pinned read_bitb does; bounded_block_end hands back max(0, remaining), which the serdes reads, as pinned flush_inputb does")
 
+    res.rule("C08.f", "what dequantisation is keyed by: every use of the default quantisation matrix table (validator, encoder, test tooling) builds the key (wavelet_index, wavelet_index_ho, dwt_depth, dwt_depth_ho) from one dictionary, in that order; the per-picture '_state' entry the deserialiser records in transform_data / fragment_data (the documented way to lay coefficients out as the validator does) is a copy taken at that point, not the live dictionary that later data units overwrite")
     m = repo.mod(VC2)
     dm_funcs = {}
     for name, mod in repo.modules.items():
@@ -91,6 +94,8 @@ def check(repo, tier="quick"):
                 classify(repo, res, m, fn, fname, s, key, where, dm_funcs)
     res.info["not_in_spec_statements"] = n_free
     rule_d(repo, res)
+    rule_f(repo, res, m)
+    res.floor("C08.f", 10)
     from .. import lints, globals_state
 
     lints.rule(repo, res, "C08.e", ["bitstream.vc2", "bitstream.serdes", "bitstream.io"])
@@ -126,7 +131,7 @@ def classify(repo, res, m, fn, fname, s, key, where, dm_funcs):
         for n in ast.walk(s):
             if isinstance(n, ast.Call) and not (isinstance(n.func, ast.Attribute) and dotted(n.func.value) in ("serdes", "state", "serdes.io", "transform")):
                 d = dotted(n.func)
-                if d not in PURE_GEOMETRY and d not in ("is_ld", "is_hq") and not (d and d[:1].isupper()):
+                if d not in PURE_GEOMETRY and d not in ("is_ld", "is_hq") and d not in PURE_BUILTINS and not (d and d[:1].isupper()):
                     ok = False
         if isinstance(s, ast.Try):
             ok = False
@@ -416,3 +421,20 @@ def rule_d(repo, res):
     bb = R["bounded_block_begin"]
     ok = any(isinstance(a, ast.Assign) and norm(a.targets[0]) == "self._bits_remaining" and dotted(a.value) == bb.args.args[1].arg for a in bb.body)
     res.check(ok, "C08.d", "bounded_block_begin:length-as-given", "%s:BitstreamReader.bounded_block_begin" % im.rel, "the block length must be stored unchanged (pinned: state['bits_left'] = length)", by="self._bits_remaining = length")
+
+
+COPY_FORMS = ("%s.copy()", "dict(%s)", "State(%s)", "copy(%s)", "deepcopy(%s)", "copy.copy(%s)", "copy.deepcopy(%s)")
+
+
+def rule_f(repo, res, m):
+    from .. import quantmatrix
+
+    quantmatrix.rule(repo, res, "C08.f")
+    for fname in ("transform_data", "fragment_data"):
+        fn = m.funcs.get(fname)
+        if fn is None:
+            raise AnalysisError("anchor vanished: bitstream.vc2:%s" % fname)
+        st = fn.args.args[1].arg
+        calls = [c for c in ast.walk(fn) if isinstance(c, ast.Call) and dotted(c.func) == "serdes.computed_value" and c.args and const_str(c.args[0]) == "_state"]
+        ok = len(calls) == 1 and len(calls[0].args) == 2 and norm(calls[0].args[1]) in [norm(ast.parse(f % st).body[0].value) for f in COPY_FORMS]
+        res.check(ok, "C08.f", "%s:_state-is-a-snapshot" % fname, "%s:%s" % (m.rel, fname), "%s must record '_state' exactly once as a copy of the state (e.g. %s.copy()): the live dictionary is overwritten by every later data unit, so earlier pictures would be laid out with later pictures' parameters (found %s)" % (fname, st, [short(c.args[1], 40) for c in calls if len(c.args) > 1]), by="computed_value('_state', %s.copy())" % st)
